@@ -177,3 +177,41 @@ def numpy_typed(kw, rng, np):
         else:
             out[k] = v
     return out
+
+
+def structured_series(rng, n, kind=None):
+    """longer series with structure that small random data never has: constant runs, exact periodicity, ramps,
+    a pattern and its shifted / scaled copy, plateaus at the boundaries"""
+    kind = kind or rng.choice(["runs", "periodic", "ramp", "pulse", "steps", "walk"])
+    if kind == "runs":
+        out = []
+        while len(out) < n:
+            out += [float(rng.choice([0, 0, 1, 2, -1, 0.5]))] * rng.randint(1, 9)
+        return out[:n]
+    if kind == "periodic":
+        p = [float(rng.choice([0, 1, 2, 3, -1])) for _ in range(rng.randint(2, 7))]
+        ph = rng.randrange(len(p))
+        return [p[(i + ph) % len(p)] for i in range(n)]
+    if kind == "ramp":
+        a = rng.choice([0.25, 0.5, 1.0])
+        return [a * (i // rng.choice([1, 1, 2, 3])) for i in range(n)]
+    if kind == "pulse":
+        out = [0.0] * n
+        for _ in range(rng.randint(1, 3)):
+            p = rng.randrange(n)
+            for k, v in enumerate([1.0, 3.0, 1.5]):
+                if p + k < n:
+                    out[p + k] = v
+        return out
+    if kind == "steps":
+        lv, out = 0.0, []
+        for i in range(n):
+            if rng.random() < 0.08:
+                lv += rng.choice([-2.0, -1.0, 1.0, 2.0])
+            out.append(lv)
+        return out
+    x, out = 0.0, []
+    for i in range(n):
+        x += rng.choice([-0.5, 0.0, 0.0, 0.5])
+        out.append(x)
+    return out
